@@ -517,3 +517,342 @@ def prepareRename (d : AnalyzedSource) (p : Pos) : Except Panic (Option PosRange
     | none => .ok none
 
 end Spl.Feat
+
+namespace Spl.Feat
+
+/-! ### semantic_tokens.rs -/
+
+structure SemTok where
+  deltaLine : Nat
+  deltaStart : Nat
+  length : Nat
+  tokenType : Nat
+  modifiers : Nat
+  deriving DecidableEq, Repr
+
+def tyComment := 0
+def tyKeyword := 1
+def tyNumber := 2
+def tyType := 3
+def tyFunction := 4
+def tyParameter := 5
+def tyVariable := 6
+
+/-- text of a byte range (always on char boundaries for token ranges) -/
+def sliceText (text : List Char) (r : Range) : Option (List Char) :=
+  match splitAtByte text r.lo with
+  | some (_, rest) =>
+    match splitAtByte rest (r.hi - r.lo) with
+    | some (mid, _) => some mid
+    | none => none
+  | none => none
+
+def utf16Units (s : List Char) : Nat := (s.map utf16Len).sum
+
+def trimEndNl (s : List Char) : List Char := (s.reverse.dropWhile (fun c => c == '\n' || c == '\r')).reverse
+
+/-- `create_semantic_token`. -/
+def createSemTok (t : Token) (prev : Pos) (text : List Char) (ty modif : Nat) : Except Panic SemTok :=
+  let p := asPosition t.range.lo text
+  match sliceText text t.range with
+  | none => .error ⟨"slice"⟩
+  | some s =>
+    if p.line < prev.line then .error ⟨"underflow"⟩ else
+    if p.line == prev.line && p.col < prev.col then .error ⟨"underflow"⟩ else
+    .ok { deltaLine := p.line - prev.line
+          deltaStart := if p.line == prev.line then p.col - prev.col else p.col
+          length := utf16Units (trimEndNl s)
+          tokenType := ty
+          modifiers := modif }
+
+def isKeywordKind : Kind → Bool
+  | .If | .Else | .While | .Array | .Of | .Proc | .Ref | .Type | .Var => true
+  | _ => false
+
+/-- `map_token`: lexical classes. -/
+def mapTokenClass (t : Token) : Option Nat :=
+  match t.kind with
+  | .Comment => some tyComment
+  | .Hex | .Char | .Int => some tyNumber
+  | k => if isKeywordKind k then some tyKeyword else none
+
+/-- Fold over the tokens of one declaration, threading the previous token position. -/
+def collectToks (text : List Char) (classify : Nat → Token → Option (Nat × Nat)) :
+    List Token → Nat → Pos → Except Panic (List SemTok × Pos)
+  | [], _, prev => .ok ([], prev)
+  | t :: rest, i, prev =>
+    match classify i t with
+    | none => collectToks text classify rest (i + 1) prev
+    | some (ty, m) =>
+      match createSemTok t prev text ty m with
+      | .error e => .error e
+      | .ok st =>
+        match collectToks text classify rest (i + 1) (asPosition t.range.lo text) with
+        | .error e => .error e
+        | .ok (sts, p) => .ok (st :: sts, p)
+
+def getLocalTable (pd : ProcDecl) (g : GlobalTable) : Option LocalTable :=
+  match pd.name with
+  | some n =>
+    match tblLookup g n.value with
+    | some (.procedure p) => some p.localTable
+    | _ => none
+  | none => none
+
+def semanticTokens (d : AnalyzedSource) : Except Panic (List SemTok) :=
+  let rec go : List (Ref GlobalDecl) → Pos → Except Panic (List SemTok)
+    | [], _ => .ok []
+    | gd :: rest, prev =>
+      match (allTokens d).from gd.offset with
+      | none => .error ⟨"slice"⟩
+      | some toks =>
+        let info := gd.val.info
+        match toks.sub info.range with
+        | none => .error ⟨"slice"⟩
+        | some s =>
+          let classify : Nat → Token → Option (Nat × Nat) := match gd.val with
+            | .type td => fun i t =>
+              let pos := td.info.range.lo + i
+              if (match td.name with | some n => n.info.range.hi == pos + 1 | none => false) then some (tyType, 1)
+              else if t.kind == .Ident then some (tyType, 0)
+              else (mapTokenClass t).map (fun c => (c, 0))
+            | .proc pd => fun i t =>
+              let pos := pd.info.range.lo + i
+              let lt := getLocalTable pd d.table
+              if (match pd.name with | some n => n.info.range.hi == pos + 1 | none => false) then some (tyFunction, 1)
+              else match t.ty with
+                | .Ident name =>
+                  match lookupBoth lt d.table name with
+                  | some (.type _) => some (tyType, 0)
+                  | some (.procedure _) => some (tyFunction, 0)
+                  | some (.variable v) => some (tyVariable, if v.range.lo + v.name.info.range.hi == pos + 1 then 1 else 0)
+                  | some (.parameter v) => some (tyParameter, if v.range.lo + v.name.info.range.hi == pos + 1 then 1 else 0)
+                  | none => none
+                | _ => (mapTokenClass t).map (fun c => (c, 0))
+            | .error _ => fun _ t => (mapTokenClass t).map (fun c => (c, 0))
+          match collectToks d.text classify s.toList 0 prev with
+          | .error e => .error e
+          | .ok (sts, prev') =>
+            match go rest prev' with
+            | .error e => .error e
+            | .ok more => .ok (sts ++ more)
+  go d.ast.decls ⟨0, 0⟩
+
+/-! ### completion.rs -/
+
+structure Item where
+  label : List Char
+  kind : String
+  detail : Option (List Char) := none
+  insertText : Option (List Char) := none
+  doc : Option (List Char) := none
+  deriving DecidableEq, Repr
+
+def kwItem (s : String) : Item := { label := s.toList, kind := "Keyword" }
+def snippet (label text : String) : Item := { label := label.toList, kind := "Snippet", insertText := some text.toList }
+
+def itemInt : Item := { label := "int".toList, kind := "Struct" }
+def snMain := snippet "main" "proc main() {\n    $0\n}"
+def snArray := snippet "array" "array [$1] of $0"
+def snProc := snippet "proc" "proc $1($2) {\n    $0\n}"
+def snVar := snippet "var" "var $1: $0;"
+def snType := snippet "type" "type $1 = $0;"
+/-- `snippet!(r#if, "while", …)`: the label/text pairing of the source, kept as it is. -/
+def snIf := snippet "while" "while ($1) {\n    $0\n}"
+def snWhile := snippet "if" "if ($1) {\n    $0\n}"
+def snElse := snippet "else" "else {\n    $0\n}"
+
+def entryItem (k : List Char) (kind : String) (e : Entry) : Item :=
+  { label := k, kind := kind, detail := some (entryStr e), doc := e.doc.map trimStart }
+
+def searchTypes (g : GlobalTable) : List Item :=
+  g.filterMap (fun (k, e) => match e with
+    | .type t => some (entryItem k "Struct" (.type t))
+    | _ => none)
+
+def searchProcedures (g : GlobalTable) : List Item :=
+  g.filterMap (fun (k, e) => match e with
+    | .procedure p => some (entryItem k "Function" (.procedure p))
+    | _ => none)
+
+def searchVariables (l : LocalTable) : List Item :=
+  l.map (fun (k, e) => match e with
+    | .variable v => entryItem k "Variable" (.variable v)
+    | .parameter v => entryItem k "Variable" (.parameter v))
+
+def newStmt (lt : Option LocalTable) (g : GlobalTable) : List Item :=
+  [snIf, snWhile, kwItem "if", kwItem "while"] ++ (match lt with | some l => searchVariables l | none => []) ++ searchProcedures g
+
+def newGlobalDeclaration (g : GlobalTable) : List Item :=
+  [snProc, snType, kwItem "proc", kwItem "type"] ++
+    (match tblLookup g "main".toList with
+     | some (.procedure _) => []
+     | _ => [snMain])
+
+/-- `TokenList::token_before`. -/
+def tokenBefore (toks : List Token) (index : Nat) : Option Token :=
+  match toks with
+  | [] => none
+  | first :: _ =>
+    if first.range.lo > index then none else
+    let rec go : List Token → Token → Token
+      | [], cur => cur
+      | t :: rest, cur => if t.range.lo ≥ index then cur else go rest t
+    some (go toks first)
+
+def completeType (position : Nat) (toks : List Token) (g : GlobalTable) : Option (List Item) :=
+  match tokenBefore toks position with
+  | none => none
+  | some last =>
+    match last.kind with
+    | .Eq => some [snArray, kwItem "array", itemInt]
+    | .RBracket => some [kwItem "of"]
+    | .Of => some ([snArray, kwItem "array"] ++ searchTypes g)
+    | _ => none
+
+def completeVars (toks : List Token) (position : Nat) (lt : Option LocalTable) (start : Kind) : Option (List Item) :=
+  match toks.find? (fun t => t.kind == start) with
+  | some t => if position ≥ t.range.hi then lt.map searchVariables else none
+  | none => none
+
+def stmtIsIf : Stmt → Bool
+  | .ifS .. => true
+  | _ => false
+
+/-- tokens of a statement: `stmt.info().slice(&tokens[stmt.offset..])`, and its text range measured
+    on that slice (`stmt.to_text_range(tokens)`). -/
+def stmtSlice (toks : Slice) (s : Stmt) (offset : Nat) : Except Panic (Slice × Range) :=
+  match toks.from offset with
+  | none => .error ⟨"slice"⟩
+  | some s1 =>
+    match s1.sub s.info.range with
+    | none => .error ⟨"slice"⟩
+    | some s2 =>
+      match toTextRange s2 s.info.range with
+      | .error e => .error e
+      | .ok r => .ok (s2, r)
+
+mutual
+  /-- `complete_statements`: `lastIf` = the statement before the current one is an `if`. -/
+  def completeStmts (position : Nat) (last : Token) (lt : Option LocalTable) (g : GlobalTable) (toks : Slice) :
+      StmtList → Bool → Except Panic (Option (List Item))
+    | .nil, _ => .ok (some (newStmt lt g))
+    | .cons s o rest, lastIf =>
+      match stmtSlice toks s o with
+      | .error e => .error e
+      | .ok (sl, r) =>
+        if r.contains position then completeStmt position last lt g sl s lastIf
+        else completeStmts position last lt g toks rest (stmtIsIf s)
+
+  def completeStmt (position : Nat) (last : Token) (lt : Option LocalTable) (g : GlobalTable) (toks : Slice) :
+      Stmt → Bool → Except Panic (Option (List Item))
+    | s, lastIf =>
+      if lastIf && last.kind == .RCurly then .ok (some ([snElse, kwItem "else"] ++ newStmt lt g)) else
+      match s with
+      | .block ss _ => completeStmts position last lt g toks ss false
+      | .assign _ => .ok (completeVars toks.toList position lt .Assign)
+      | .call _ => .ok (completeVars toks.toList position lt .LParen)
+      | .ifS _ t e _ =>
+        match completeBranch position last lt g toks t with
+        | .error p => .error p
+        | .ok (some r) => .ok r
+        | .ok none =>
+          match completeBranch position last lt g toks e with
+          | .error p => .error p
+          | .ok (some r) => .ok r
+          | .ok none => .ok (completeVars toks.toList position lt .LParen)
+      | .whileS _ b _ =>
+        match completeBranch position last lt g toks b with
+        | .error p => .error p
+        | .ok (some r) => .ok r
+        | .ok none => .ok (completeVars toks.toList position lt .LParen)
+      | .error _ | .empty _ => .ok (some (newStmt lt g))
+
+  /-- `complete_branch!`: `some r` = the macro returned `r`. -/
+  def completeBranch (position : Nat) (last : Token) (lt : Option LocalTable) (g : GlobalTable) (toks : Slice) :
+      OptStmt → Except Panic (Option (Option (List Item)))
+    | .none => .ok none
+    | .some s o =>
+      match stmtSlice toks s o with
+      | .error e => .error e
+      | .ok (sl, r) =>
+        if r.contains position then (completeStmt position last lt g sl s false).map some else .ok none
+end
+
+def isRealStmt : Stmt → Bool
+  | .error _ | .empty _ => false
+  | _ => true
+
+def completeProcedure (pd : ProcDecl) (position : Nat) (toks : Slice) (g : GlobalTable) :
+    Except Panic (Option (List Item)) :=
+  match tokenBefore toks.toList position with
+  | none => .ok none
+  | some last =>
+    let inSignature : Bool := match toks.toList.find? (fun t => t.kind == .RParen || t.kind == .LCurly) with
+      | some t => decide (position < t.range.lo)
+      | none => true
+    match inSignature with
+    | true =>
+      match last.kind with
+      | .LParen | .Comma => .ok (some [kwItem "ref"])
+      | .Colon => .ok (some (searchTypes g))
+      | _ => .ok none
+    | false =>
+      let lt := getLocalTable pd g
+      let inStmts : Except Panic Bool := match pd.stmts.find? (fun s => isRealStmt s.val) with
+        | none => .ok false
+        | some first =>
+          match toks.from first.offset with
+          | none => .error ⟨"slice"⟩
+          | some s1 =>
+            match toTextRange s1 first.val.info.range with
+            | .error e => .error e
+            | .ok r => .ok (position ≥ r.lo)
+      match inStmts with
+      | .error e => .error e
+      | .ok true => completeStmts position last lt g toks (StmtList.ofList pd.stmts) false
+      | .ok false =>
+        match last.kind with
+        | .Colon => .ok (some (searchTypes g))
+        | .Semic | .LCurly => .ok (some ([snVar, kwItem "var"] ++ newStmt lt g))
+        | _ => .ok none
+
+/-- `completion::propose`. -/
+def completion (d : AnalyzedSource) (p : Pos) : Except Panic (Option (List Item)) :=
+  match docCursor d p with
+  | .error e => .error e
+  | .ok c =>
+    let position := if c.index > 0 then c.index - 1 else 0
+    match findDecl d position d.ast.decls with
+    | .error e => .error e
+    | .ok (some gd) =>
+      match (allTokens d).from gd.offset with
+      | none => .error ⟨"slice"⟩
+      | some toks =>
+        match gd.val with
+        | .type td =>
+          match toks.sub td.info.range with
+          | none => .error ⟨"slice"⟩
+          | some s => .ok (completeType position s.toList d.table)
+        | .proc pd =>
+          match toks.sub pd.info.range with
+          | none => .error ⟨"slice"⟩
+          | some s => completeProcedure pd position s d.table
+        | .error _ => .ok (some (newGlobalDeclaration d.table))
+    | .ok none =>
+      match d.ast.decls.getLast? with
+      | some ⟨.type td, offset⟩ =>
+        match (allTokens d).from offset with
+        | none => .error ⟨"slice"⟩
+        | some toks =>
+          match toks.sub td.info.range with
+          | none => .error ⟨"slice"⟩
+          | some s =>
+            match s.toList.getLast? with
+            | some lastTok =>
+              if lastTok.kind != .Semic then .ok (completeType position toks.toList d.table)
+              else .ok (some (newGlobalDeclaration d.table))
+            | none => .ok (some (newGlobalDeclaration d.table))
+      | _ => .ok (some (newGlobalDeclaration d.table))
+
+end Spl.Feat
